@@ -202,6 +202,53 @@ def dynamic_part(res, ctx, names):
         res.count('twin_pairs')
 
 
+def front_end_twins(res, ctx, names):
+    """The twins through the public front end: one dump (both container versions) holding every twin pair, decoded by
+    traces() and formatted_traces() under the bundled table and under an explicit copy of it."""
+    import io
+    from pykdebugparser.pykdebugparser import PyKdebugParser
+    from vlib import wire, gen
+    rng = ctx.rng
+    n2i = ev.name2ids()
+    twins = [n for n in names if n.endswith('_nocancel') and n[:-9] in names and n in n2i and n[:-9] in n2i]
+    seq, expect = [], []
+    for name in twins:
+        base = name[:-9]
+        start = domain.gen_words(rng, base, 'S')
+        end = domain.gen_words(rng, base, 'E')
+        end[0] = rng.choice((0, 0, 9, 35))
+        seq += H.syscall(base, start, end) + H.syscall(name, start, end)
+        expect.append((base, name))
+    events = H.materialize(H.on_thread(6, seq))
+    records = gen.events_to_records(events)
+    entries = [(6, 100, b'proc0', b'')]
+    files = {'v2': wire.v2_file(entries, 8, records),
+             'v3': wire.V3Spec(entries=entries, chunks=gen.split_chunks(rng, records, 3)).build()}
+    for kind, data in files.items():
+        for table in (None, dict(ev.bundled_codes())):
+            for method in ('traces', 'formatted_traces'):
+                p = PyKdebugParser()
+                p.color = False
+                p.show_timestamp = p.show_tid = p.show_process = False
+                try:
+                    out = [str(t) if method == 'traces' else t for t in getattr(p, method)(io.BytesIO(data), table)]
+                except Exception as x:
+                    res.violation(f'c17-front-end-raises-{core.exc_name(x)}', f'{method} on a {kind} dump: {x!r}', {'file': data})
+                    return
+                res.count('front_end_twin_listings')
+                if len(out) != 2 * len(expect):
+                    res.violation('c17-front-end-twin-missing', f'{method} on a {kind} dump of {len(expect)} twin pairs '
+                                  f'({"bundled table by default" if table is None else "explicit copy of the bundled table"}): '
+                                  f'{len(out)} traces instead of {2 * len(expect)}', {'file': data})
+                    return
+                for (base, name), a, b in zip(expect, out[0::2], out[1::2]):
+                    res.case((kind, method, table is None, name))
+                    if b.replace('_nocancel', '', 1) != a or '_nocancel' not in b or '_nocancel' in a:
+                        res.violation('c17-twin-rendering', f'{method} on a {kind} dump: {base}: {a!r} vs {name}: {b!r}',
+                                      {'file': data})
+                        return
+
+
 def odd_parsers_first(res):
     """Other users of the library in the same process must not change what is registered: parsers with an empty,
     a reduced (only the _nocancel names) and a renamed code table are created and used before the audit."""
@@ -239,12 +286,15 @@ def run(ctx):
         names = sorted(ev.new_parser().handlers)
     dynamic_part(res, ctx, names)
     if ctx.shard == 0:
+        front_end_twins(res, ctx, names)
+    if ctx.shard == 0:
         res.sample({'name': 'BSC_read_nocancel', 'rendering': render('BSC_read_nocancel', (3, 0x1000, 64, 0), (0, 64, 0, 0)),
                     'base': render('BSC_read', (3, 0x1000, 64, 0), (0, 64, 0, 0))})
         res.sample({'registered_names': len(names), 'first': names[:5]})
     res.assumptions += ['the bundled table is read with the own parser of vlib/ev.py', 'twin words are in-domain']
     res.require('functions_observed_entered', 10)
     res.require('twin_renderings_compared', 10)
+    res.require('front_end_twin_listings', 8)
     return res
 
 
